@@ -124,6 +124,10 @@ def run_driver(lines: list[str], timeout=3600) -> list:
     return res
 
 
+_CALL_SIGNATURE = re.compile(r'TypeError\W.{0,120}(positional arguments? but|unexpected keyword argument|required (positional|keyword-only) argument|'
+                             r'takes no arguments|got multiple values for argument|not enough arguments|too many arguments)')
+
+
 class InfraError(Exception):
     pass
 
@@ -286,6 +290,13 @@ class Ctx:
             self.samples.append(x)
 
     def oracle_fail(self, key, desc, case):
+        if _CALL_SIGNATURE.search(desc):
+            # the harness called a function of the implementation with the arguments the UNCHANGED code takes and Python rejected
+            # the call: names and signatures of internal functions are the implementation's business (a refactoring may change
+            # them together with every caller) – the observation point is gone, which breaks the tie, and is not a failing input
+            self.corr_failures.append(Failure('call-signature:' + key, desc + ' [call-signature mismatch: a tie matter, not a failing input]',
+                                              case, 'correspondence'))
+            return
         self.oracle_failures.append(Failure(key, desc, case, 'oracle'))
 
     def corr_fail(self, key, desc, case):
